@@ -58,6 +58,8 @@ pub enum RngKind {
     Const(u8),
     Period2(u8, u8),
     Replay(u64),
+    /// the library's own entry point `prove` (operating-system randomness) instead of `prove_with_rng`
+    Os,
 }
 pub struct TestRng {
     pub kind: RngKind,
@@ -88,7 +90,7 @@ impl RngCore for TestRng {
     fn fill_bytes(&mut self, dest: &mut [u8]) {
         self.bytes_drawn += dest.len() as u64;
         match self.kind {
-            RngKind::ChaCha(_) | RngKind::Replay(_) => self.inner.fill_bytes(dest),
+            RngKind::ChaCha(_) | RngKind::Replay(_) | RngKind::Os => self.inner.fill_bytes(dest),
             RngKind::Zero => dest.iter_mut().for_each(|b| *b = 0),
             RngKind::Const(c) => dest.iter_mut().for_each(|b| *b = c),
             RngKind::Period2(a, b2) => {
